@@ -20,6 +20,7 @@ import Sds.Proofs.Codec
 import Sds.Proofs.Supports
 import Sds.Proofs.Glue2
 import Sds.Generated.SerConsts
+import Sds.Proofs.GenEqEnable
 
 namespace Sds.C19
 open Sds Outcome SupportProofs
@@ -312,5 +313,23 @@ example : ([(false, true, false), (false, false, false), (true, false, true), (f
 example : (1 ≤ 2 ∧ 2 ≤ 63 ∧ 10 < 2 ^ 64 ∧ sortedStrict [0, 5, 9] = true ∧ (∀ p ∈ [0, 5, 9], p < 10) ∧
     [0, 5, 9].length + Sparse.getBuckets 10 2 < 2 ^ 63 ∧ [0, 5, 9].length * 2 < 2 ^ 64) := by decide
 example : (([5, 0, 5, 9, 0] : List Nat).foldl max 0 + 1) * 64 < 2 ^ 64 := by decide
+
+/-! **`supports_*` / `enable_*` as translated from the source on this run** (`Generated/FnsEnable.lean`): the four tests and
+the four enabling methods of `BitVector` — the guard `!self.supports_x()`, which field is assigned, and that
+`enable_pred_succ` is `enable_rank` then `enable_select`.  Unconditionally the model functions whose idempotence and
+commutation the theorems above state (the support constructors themselves are loops over the whole vector and are named
+by their model functions). -/
+theorem enable_methods_as_translated_from_source (m : Mode) (b : BitVector) :
+    Generated.gen_BitVector_supports_rank m b = ok b.rank.isSome ∧
+    Generated.gen_BitVector_supports_select m b = ok b.select.isSome ∧
+    Generated.gen_BitVector_supports_select_zero m b = ok b.selectZero.isSome ∧
+    Generated.gen_BitVector_supports_pred_succ m b = ok (b.rank.isSome && b.select.isSome) ∧
+    Generated.gen_BitVector_enable_rank m b = ok b.enableRank ∧
+    Generated.gen_BitVector_enable_select m b = ok b.enableSelect ∧
+    Generated.gen_BitVector_enable_select_zero m b = ok b.enableSelectZero ∧
+    Generated.gen_BitVector_enable_pred_succ m b = ok b.enableRank.enableSelect :=
+  ⟨GenEq.supports_rank_eq m b, GenEq.supports_select_eq m b, GenEq.supports_select_zero_eq m b,
+   GenEq.supports_pred_succ_eq m b, GenEq.enable_rank_eq m b, GenEq.enable_select_eq m b,
+   GenEq.enable_select_zero_eq m b, GenEq.enable_pred_succ_eq m b⟩
 
 end Sds.C19
